@@ -1,2 +1,3 @@
 import HpoProps.C12
 import HpoProps.C20
+import HpoProps.C11
